@@ -37,7 +37,10 @@ pub(crate) async fn resolve_container(
     collect_fields(&mut fields, schema, object, ctx, parent_value)?;
 
     let res = if !serial {
-        futures_util::future::try_join_all(fields).await?
+        futures_util::future::join_all(fields)
+            .await
+            .into_iter()
+            .collect::<ServerResult<Vec<_>>>()?
     } else {
         let mut results = Vec::with_capacity(fields.len());
         for field in fields {
@@ -525,7 +528,10 @@ async fn resolve_list<'a>(
             Ok::<_, ServerError>(res_value.unwrap_or_default())
         });
     }
-    let values = futures_util::future::try_join_all(futures).await?;
+    let values = futures_util::future::join_all(futures)
+        .await
+        .into_iter()
+        .collect::<ServerResult<Vec<_>>>()?;
     Ok(Some(Value::List(values)))
 }
 
